@@ -279,6 +279,17 @@ class HHChecker(Checker):
 
     # -- C03 ----------------------------------------------------------------------
     def c03(self, w, i, n, sk, truth, ev):
+        if not getattr(w, "_alias_probed", False) and len(w.universe) >= 2:
+            w._alias_probed = True
+            us = list(w.universe)
+            for a in us:
+                for b in us:
+                    if len(a) < len(b) and b[: len(a)] == a and not any(b[len(a):]):
+                        ca, cb = w.owner_cells(a), w.owner_cells(b)
+                        if ca and cb and any(x == y for x, y in zip(ca, cb)):
+                            w.probes["nul_aliased_identities_share_a_cell"] += 1
+            if any(len(unhex(h)) > w.mkl for h in w.cfg["pool"]):
+                w.probes["pool_has_key_longer_than_max_key_len"] += 1
         for ident in w.universe:
             c = int(sk[ident])
             t = truth.get(ident, 0)
@@ -291,6 +302,7 @@ class HHChecker(Checker):
         if some and e % 3 == 0:
             combos.append((QUERY_KS[(e + 1) % 4], some[e % len(some)]))
         for k, t in combos:
+            w.probes["query_answers_checked"] += 1
             for key, count in hh_query(sk, k, t):
                 tv = truth.get(key, 0)
                 if int(count) > tv:
